@@ -45,9 +45,18 @@ package dhcpv6
 
 const (
 	refAccept = iota
-	refReject
+	refReject // malformed by a framing / fixed-length / minimum-length rule
 	refUndef
+	// Malformed only by one of the two rules below.  They are kept apart so that the harnesses
+	// can give the obligation its own label: the pinned library is known not to enforce them.
+	refRejectPrefixLen     // a prefix length that no prefix can have (> 128, > 32)
+	refRejectRemoteIDShort // OPTION_REMOTE_ID with option-len 4 (RFC 4649 §3: minimum 5)
 )
+
+// refRejects: is the status one of the rejecting ones?
+func refRejects(st int) bool {
+	return st == refReject || st == refRejectPrefixLen || st == refRejectRemoteIDShort
+}
 
 func refBE16(b []byte) uint16 { return uint16(b[0])<<8 | uint16(b[1]) }
 func refBE32(b []byte) uint32 {
@@ -79,6 +88,12 @@ func refEncTLV(code uint16, val []byte) []byte {
 func refWorst(a, b int) int {
 	if a == refReject || b == refReject {
 		return refReject
+	}
+	if refRejects(a) {
+		return a
+	}
+	if refRejects(b) {
+		return b
 	}
 	if a == refUndef || b == refUndef {
 		return refUndef
@@ -488,7 +503,7 @@ func refOptStatus(code uint16, p []byte) int {
 			return refReject
 		}
 		if p[8] > 128 {
-			return refReject
+			return refWorst(refRejectPrefixLen, refAreaStatus(p[25:]))
 		}
 		return refAreaStatus(p[25:])
 	case refInfoRefresh: // §21.23
@@ -497,8 +512,11 @@ func refOptStatus(code uint16, p []byte) int {
 		}
 		return refAccept
 	case refRemoteID: // RFC 4649 §3
-		if n < 5 {
+		if n < 4 {
 			return refReject
+		}
+		if n == 4 {
+			return refRejectRemoteIDShort
 		}
 		return refAccept
 	case refFQDN:
@@ -537,8 +555,11 @@ func refOptStatus(code uint16, p []byte) int {
 		if n != 24 {
 			return refReject
 		}
-		if p[0] > 32 || p[1] > 128 {
-			return refReject
+		if p[0] > 32 {
+			return refRejectPrefixLen
+		}
+		if p[1] > 128 {
+			return refRejectPrefixLen
 		}
 		return refAccept
 	case ref4RDNonMap:
